@@ -106,6 +106,14 @@ def load(repo=None):
                         nf_["crate"] = f_.get("crate")
                         F.fns[fid_] = nf_
                         unr.append((fid_, n_))
+                    nf_, n_ = inline.expand_quantifiers(F, F.fns[fid_])
+                    if nf_ is not None and n_:
+                        nf_["crate"] = f_.get("crate")
+                        F.fns[fid_] = nf_
+                        unr.append((fid_, n_))
+                    if F.fns[fid_] is not f_:
+                        # a table of function items: the call through the element is a call of that function
+                        inline._devirtualise(F, F.fns[fid_])
             F.new_helpers["unrolled"] = unr
         _cache[fdir] = F
     return _cache[fdir]
@@ -273,6 +281,10 @@ def raw_view(F, keep_loops=True):
         f_ = G.fns[fid_]
         if f_.get("crate") in build.CRATES:
             nf_, n_ = inline.unroll_array_loops(G, f_)
+            if nf_ is not None and n_:
+                nf_["crate"] = f_.get("crate")
+                G.fns[fid_] = nf_
+            nf_, n_ = inline.expand_quantifiers(G, G.fns[fid_])
             if nf_ is not None and n_:
                 nf_["crate"] = f_.get("crate")
                 G.fns[fid_] = nf_
